@@ -96,6 +96,7 @@ def judge_state(ctx, tree, now, case):
         os.remove(link)
     os.symlink(root, link)
     nforms = 0
+    wants = {}
     for f in sorted(recorded):
         if f not in med or med[f] is DIR:
             continue   # -sf needs an existing path (and a file: the name may belong to a folder by now)
@@ -108,6 +109,7 @@ def judge_state(ctx, tree, now, case):
                 if rec["kind"] == "file" and rec["path"] == rel:
                     for h in rec["hashes"]:
                         want.append((g["number"], m["creationdate"], h["format"], h["digest"], h["action"]))
+        wants[f] = (hr, want)
         forms = [("with-root", [root, "-sf", os.path.join(root, f)], None), ("without-root", ["-sf", os.path.join(root, f)], None)]
         nforms += 1
         if nforms <= 2:   # other ways of naming the same file
@@ -127,6 +129,23 @@ def judge_state(ctx, tree, now, case):
                     any(not same_instant(a[1], b[1]) for a, b in zip(sorted(got, key=key), sorted(want, key=key))):
                 V("digest-lines", f"info {form} -sf {f} (history '{hr or '.'}'): printed {got}, recorded {want}",
                   form=form, in_child=hr != "", n_printed=min(len(got), 1))
+    # several -sf options at once (no ROOT argument): files of one history that live in different folders - first those whose
+    # folder names share a leading part
+    pairs = [(a, b) for a in sorted(wants) for b in sorted(wants) if a < b and wants[a][0] == wants[b][0]
+             and ref.parent(a) != ref.parent(b)]
+    pairs.sort(key=lambda ab: (-len(os.path.commonprefix([ref.parent(ab[0]) + "/", ref.parent(ab[1]) + "/"]).rsplit("/", 1)[-1]), ab))
+    for a, b in pairs[:2]:
+        r4 = ctx.run("info", ["-sf", os.path.join(root, a), "-sf", os.path.join(root, b)], now=now)
+        stats["cmds"] += 1
+        want2 = wants[a][1] + wants[b][1]
+        key = lambda x: (x[0], x[2] or "", x[3] or "", x[4] or "")
+        if r4.exc is not None or r4.exit != 0:
+            V("info-sf-fails", f"info -sf {a} -sf {b}: exit {r4.exit} {r4.exc}", form="two-sf", exc=(r4.exc or "").split(":")[0] or None)
+        else:
+            got2 = [x for lst in parse_info(r4.out).values() for x in lst if x[2] is not None]
+            if sorted(map(key, got2)) != sorted(map(key, want2)):
+                V("digest-lines", f"info -sf {a} -sf {b} (history '{wants[a][0] or '.'}'): printed {got2}, recorded {want2}",
+                  form="two-sf", in_child=wants[a][0] != "", n_printed=min(len(got2), 1))
     # a file that exists but has no history above it
     if not roots and med:
         f = sorted(p for p, c in med.items() if c is not DIR)[:1]
@@ -161,7 +180,8 @@ def expand(ctx, item):
 # a small alphabet of its own: names that are not in Unicode NFC form, names with blanks at the ends (how a file is NAMED must
 # not matter to the look-up)
 UNI = {"e\u0301.txt": b"decomposed", "\u00e9.txt": b"composed", "u\u0308 dir": DIR, "u\u0308 dir/f\u0327.txt": b"in nfd dir",
-       " lead.txt": b"leading blank", "trail.txt ": b"trailing blank", "\u212b.bin": b"angstrom sign"}
+       " lead.txt": b"leading blank", "trail.txt ": b"trailing blank", "\u212b.bin": b"angstrom sign",
+       "A001": DIR, "A001/clip.mov": b"clip 1", "A002": DIR, "A002/clip.mov": b"clip 2"}   # sibling folders with a common leading part
 
 
 def enabled(tree, meta):
